@@ -241,3 +241,47 @@ Section EPFull.
     - f_equal. eapply same_tf_same_row; eauto.
   Qed.
 End EPFull.
+
+(* the emitted LEFT JOIN .. WHERE .. IS NULL is the anti-join on the oriented key pair *)
+Lemma canonical_anti_join ne preds :
+  left_join_where canon_on canon_wh ne preds = if existsb (key_pair_eqb ne) preds then [] else [ne].
+Proof.
+  unfold left_join_where.
+  assert (E : forall oe, isT (jeval ne (Some oe) canon_on) = key_pair_eqb ne oe).
+  { intros [a b]. destruct ne as [x y]. cbn. unfold key_pair_eqb. cbn.
+    rewrite (Nat.eqb_sym a x), (Nat.eqb_sym b y). destruct (Nat.eqb x a), (Nat.eqb y b); reflexivity. }
+  rewrite (filter_ext _ _ E).
+  induction preds as [|o t IH]; cbn; auto.
+  destruct (key_pair_eqb ne o) eqn:Ho; cbn.
+  - assert (W : forall l, filter (fun oe => isT (jeval ne (Some oe) canon_wh)) l = []).
+    { induction l as [|[a b] l IHl]; cbn; auto. }
+    rewrite W. reflexivity.
+  - exact IH.
+Qed.
+
+Lemma anti_join_is_filter pairs preds :
+  flat_map (fun ne => left_join_where canon_on canon_wh ne preds) pairs
+  = filter (fun ne => negb (existsb (key_pair_eqb ne) preds)) pairs.
+Proof.
+  induction pairs as [|ne t IH]; cbn; auto. rewrite canonical_anti_join, IH.
+  destruct (existsb (key_pair_eqb ne) preds); reflexivity.
+Qed.
+
+Lemma jkey_eqb_eq a b : jkey_eqb a b = true -> a = b.
+Proof. destruct a, b; cbn; congruence. Qed.
+Lemma jbx_eqb_eq a : forall b, jbx_eqb a b = true -> a = b.
+Proof.
+  induction a as [x y|x IHx y IHy|x]; intros [x' y'|x' y'|x'] H; cbn in H; try discriminate.
+  - apply andb_prop in H. destruct H as [H1 H2]. apply jkey_eqb_eq in H1, H2. congruence.
+  - apply andb_prop in H. destruct H as [H1 H2]. f_equal; auto.
+  - apply jkey_eqb_eq in H. congruence.
+Qed.
+
+Lemma anti_join_ok_sound on wh pairs preds :
+  anti_join_ok (Some (on, wh)) true = true ->
+  flat_map (fun ne => left_join_where on wh ne preds) pairs
+  = filter (fun ne => negb (existsb (key_pair_eqb ne) preds)) pairs.
+Proof.
+  cbn. intros H. apply andb_prop in H. destruct H as [H1 H2].
+  apply jbx_eqb_eq in H1, H2. subst. apply anti_join_is_filter.
+Qed.
